@@ -28,10 +28,14 @@ func DirectClient(obj Actor) Client {
 	return NewClient(NewContext(proxy))
 }
 
+// nextClientObjectID is shared by all the client side services: two
+// references to the same service (same connection) must not give the
+// same identifier to two objects.
+var nextClientObjectID uint32
+var nextClientObjectIDMutex sync.Mutex
+
 type clientService struct {
 	serviceID       uint32
-	nextID          uint32
-	nextIDMutex     sync.Mutex
 	objectsHandlers map[uint32]int
 	objectsMutex    sync.RWMutex
 	session         Session
@@ -55,14 +59,14 @@ func (c *clientService) ServiceID() uint32 {
 
 func (c *clientService) Add(obj Actor) (uint32, error) {
 
-	c.nextIDMutex.Lock()
-	if c.nextID > (1<<31)-1 {
-		c.nextIDMutex.Unlock()
+	nextClientObjectIDMutex.Lock()
+	if nextClientObjectID > (1<<31)-1 {
+		nextClientObjectIDMutex.Unlock()
 		return 0, fmt.Errorf("object ID overflow")
 	}
-	id := 1<<31 + c.nextID
-	c.nextID++
-	c.nextIDMutex.Unlock()
+	id := 1<<31 + nextClientObjectID
+	nextClientObjectID++
+	nextClientObjectIDMutex.Unlock()
 
 	obj.Activate(Activation{
 		ServiceID: c.serviceID,
